@@ -338,7 +338,7 @@ fn check_table_field(ctx: &mut Ctx, id: &str, src: &str, c: &Cfg) {
 }
 
 pub fn n_items(w: &W, ctx: &Ctx) -> usize {
-    let seeded = if ctx.quick() { 500 } else { 8000 };
+    let seeded = if ctx.quick() { 500 } else { 40000 };
     pinned_programs().len().div_ceil(16) + w.work.corpus.len() + seeded
 }
 
